@@ -102,6 +102,9 @@ pub struct Case {
     pub end_with_drop: bool,
     /// a scripted client: few delays, and it rarely lingers at a stop (see `on_stopped`)
     pub fast_client: bool,
+    /// an earlier debug session on the same server, ended before the judged one starts:
+    /// 0 none, 1 ended by disconnect, 2 by dropping the connection, 3 by disconnect while the machine runs
+    pub prelude: u8,
 }
 
 impl Case {
@@ -112,7 +115,7 @@ impl Case {
             "ops": self.ops.iter().map(|o| o.to_json()).collect::<Vec<_>>(),
             "lines_start_at_1": self.lines_start_at_1,
             "sched_seed": format!("{:#x}", self.seed), "entropy_seed": format!("{:#x}", self.entropy_seed),
-            "knobs": self.knobs.to_json(), "end_with_drop": self.end_with_drop, "fast_client": self.fast_client,
+            "knobs": self.knobs.to_json(), "end_with_drop": self.end_with_drop, "fast_client": self.fast_client, "prelude": self.prelude,
         })
     }
     pub fn from_json(v: &Value) -> Option<Case> {
@@ -131,6 +134,7 @@ impl Case {
             knobs: ExecKnobs::from_json(v.get("knobs")?)?,
             end_with_drop: v.get("end_with_drop").and_then(|b| b.as_bool()).unwrap_or(false),
             fast_client: v.get("fast_client").and_then(|b| b.as_bool()).unwrap_or(false),
+            prelude: v.get("prelude").and_then(|b| b.as_u64()).unwrap_or(0) as u8,
         })
     }
 }
@@ -299,6 +303,7 @@ pub fn gen_case(seed: u64, k: u64) -> Case {
         },
         end_with_drop: r.chance(1, 4),
         fast_client,
+        prelude: if r.chance(1, 5) { 1 + r.below(3) as u8 } else { 0 },
     }
 }
 
@@ -964,6 +969,28 @@ pub fn scenario(case: &Case, slot: &Arc<StdMutex<Option<Verdict>>>) {
     let setup = (|| -> Result<DapClient, ClientErr> {
         lsp.initialize()?;
         lsp.did_open(&path, &case.program)?;
+        if case.prelude != 0 {
+            // An earlier session with a breakpoint on EVERY line: whatever survives it (breakpoints, a machine
+            // thread, a stale position) would show in the judged session.
+            let mut p = DapClient::connect(PORT, 400).ok_or(ClientErr::Closed)?;
+            p.request("initialize", json!({"clientID": "sim-prelude", "linesStartAt1": false, "columnsStartAt1": false}))?;
+            p.request("launch", json!({"workspace": WS, "testRunner": {"testCaseName": "t"}}))?;
+            let all: Vec<Value> = (0..case.program.lines().count()).map(|l| json!({ "line": l })).collect();
+            p.request("setBreakpoints", json!({"source": {"path": path}, "breakpoints": all}))?;
+            p.request("configurationDone", Value::Null)?;
+            let _ = p.wait_event("stopped", Duration::from_millis(300));
+            match case.prelude {
+                1 => {
+                    let _ = p.request("disconnect", json!({}));
+                }
+                2 => p.close(),
+                _ => {
+                    let _ = p.request("continue", json!({"threadId": 1}));
+                    let _ = p.send_only("disconnect", json!({}));
+                }
+            }
+            clock::sleep(Duration::from_millis(5));
+        }
         let mut c = DapClient::connect(PORT, 400).ok_or(ClientErr::Closed)?;
         c.request("initialize", json!({"clientID": "sim", "linesStartAt1": case.lines_start_at_1, "columnsStartAt1": case.lines_start_at_1}))?;
         let l = c.request("launch", json!({"workspace": WS, "testRunner": {"testCaseName": "t"}}))?;
